@@ -21,6 +21,37 @@ def run(ctx):
     if r["violated"] != "NoConflictingAccess":
         raise Undecided("non-vacuity witness failed: pointer receivers should violate NoConflictingAccess in the model")
     ctx.cover["non_vacuity"] = "with PointerReceiver = TRUE TLC exhibits two goroutines inside conflicting accesses to the shared derived fields"
+    # deterministic part: specification-generated interleavings replayed with the draw hook as scheduler gate
+    import random
+    rng = random.Random(ctx.seed)
+    sched_files, sched_v, nsched = [], [], 0
+    for (W, D, take) in ((2, 4, 260 if quick else 10**9), (3, 2, 260 if quick else 10**9)):
+        gen = ctx.path("gen-sched-%d-%d.ndjson" % (W, D))
+        ctx.tlc("Gen_Sched", "Gen_Sched.cfg", env={"VERIF_GEN_OUT": gen}, constants={"W": W, "D": D}, tag="gen-sched-%d" % W)
+        ctx.states -= 1
+        scs = vlib.read_ndjson(gen)
+        ctx.cover["schedule_universe_W%d_D%d" % (W, D)] = len(scs)
+        rng.shuffle(scs)
+        scs = scs[:take]
+        sf = ctx.path("sched-%d.ndjson" % W)
+        with open(sf, "w") as f:
+            for x in scs:
+                f.write(json.dumps(x) + "\n")
+        procs, outs = [], []
+        for k in range(vlib.NCPU):
+            o = ctx.path("sched-%d-%d.ndjson" % (W, k))
+            outs.append(o)
+            procs.append(ctx.spawn([ctx.build_harness(), "sched", "-seed", ctx.seed, "-scen", sf, "-out", o, "-shard", k, "-shards", vlib.NCPU]))
+        for p in procs:
+            rc, so, se = ctx.wait(p)
+            if rc != 0:
+                raise Undecided("sched driver failed: " + (se or so)[-800:])
+        outs = [o for o in outs if os.path.getsize(o) > 0]
+        sched_files += outs
+        nsched += len(scs)
+    sched_v = ctx.validate_many("SchedTrace", sched_files)
+    ctx.absorb(sched_v, sched_files, lambda l, f, why: dict(kind="schedule", why=why, event=vlib.nth_line(f, l)))
+    ctx.cover["interleavings_replayed"] = nsched
     drv = ctx.build_harness(race=True)
     # (goroutines, ms per configuration, GOMAXPROCS, source): "go" = a goroutine-safe source written in Go, so that writes into the
     # library's read buffers are visible to the race detector (the kernel's writes are not)
@@ -68,7 +99,7 @@ def run(ctx):
     ctx.absorb([rv], [races])
     ctx.absorb(cverd, cfiles, charfam.describe_char)
     ctx.absorb(wverd, wfiles, wlfam.describe_wl)
-    n = sum(v["extra"]["leaves"] for v in cverd + wverd)
+    n = sum(v["extra"]["leaves"] for v in cverd + wverd) + sum(v["extra"]["calls"] for v in sched_v)
     ctx.evaluations = n
     ctx.nontrivial = n
     ctx.cover.update(stress_runs=len(configs), goroutines=[c[0] for c in configs], validated_concurrent_results=n, race_reports=nraces)
